@@ -91,6 +91,9 @@ fn render_field(f: &Field, m: &Module, indent: &str, out: &mut String) {
     if f.as_same {
         ts.push(format!("as = {}", lit(&render_ty(&f.ty, m))));
     }
+    if let Some(t) = &f.as_type {
+        ts.push(format!("as = {}", lit(&render_ty(t, m))));
+    }
     if !m.serde {
         // TS-only corpus: spell everything as ts attributes (unknown-to-ts serde keys dropped)
         for s in serde.drain(..) {
